@@ -307,7 +307,7 @@ mutual
 theorem refl_node : ∀ n : Node, GPair R (renderNode c n) (renderNode c n)
   | .text l s => gpair_node_text hR c l s trivial
   | .obj l e => gpair_node_obj hR c (ctxChunks_true c) l e
-  | .raw sl => gpair_node_raw hR c sl (fun _ _ => trivial)
+  | .raw sl => gpair_node_raw hR c sl trivial (fun _ _ => trivial)
   | .trim b => refl_trimNode hR hop c hc b
   | .assign l x e => gpair_node_assign hR c l x e
   | .capture l x _ => gpair_node_capture hR c l x (gpair_quiet hR (quiet_capture _))
@@ -359,7 +359,7 @@ mutual
 theorem face_node : ∀ n : Node, (∀ u ∈ litNode n, TrimComm u) → GPair FaceRel (renderNode c n) (renderNode c (faceLNode n))
   | .text l s, _ => by rw [faceLNode]; exact gpair_node_text faceRel_ok c l s trivial
   | .obj l e, _ => by rw [faceLNode]; exact gpair_node_obj faceRel_ok c (ctxChunks_true c) l e
-  | .raw sl, _ => by rw [faceLNode]; exact gpair_node_raw faceRel_ok c sl (fun _ _ => trivial)
+  | .raw sl, _ => by rw [faceLNode]; exact gpair_node_raw faceRel_ok c sl trivial (fun _ _ => trivial)
   | .trim b, _ => by rw [faceLNode]; exact refl_trimNode faceRel_ok (fun op => faceRel_refl [op]) c hc b
   | .assign l x e, _ => by rw [faceLNode]; exact gpair_node_assign faceRel_ok c l x e
   | .capture l x body, hl => by
